@@ -288,7 +288,7 @@ func (g *BadQ3) loop() {
 
 // ---- S1 / S2 ------------------------------------------------------------------------------------------------------------
 
-type fxStreamStats struct{ Packets, Nacks uint64 }
+type fxStreamStats struct{ Packets, Nacks, Bytes uint64 }
 
 type sStats struct {
 	fxStreamStats
@@ -382,5 +382,33 @@ func (r *sRec) recordBadS3(st sStats, pkts []sPkt) sStats {
 			st.internal++
 		}
 	}
+	return st
+}
+
+
+// ---- S4 -----------------------------------------------------------------------------------------------------------------
+
+func (r *sRec) recordGoodS4(st sStats, ssrc uint32, n int, late bool) sStats {
+	if ssrc != r.ssrc {
+		return st
+	}
+	st.Packets++
+	if late {
+		st.internal++
+	}
+	st.Bytes += uint64(n)
+	return st
+}
+
+// recordBadS4 counts a late packet but not its bytes.
+func (r *sRec) recordBadS4(st sStats, ssrc uint32, n int, late bool) sStats {
+	if ssrc != r.ssrc {
+		return st
+	}
+	st.Packets++
+	if late {
+		return st
+	}
+	st.Bytes += uint64(n)
 	return st
 }
